@@ -716,6 +716,16 @@ func (g *gen) fieldIDs(fs []*Field) {
 		}
 		used[f.ID] = true
 		prev = f.ID
+		// some explicit ids are written zero-padded or in hex: `010` is ten, not eight. Chosen from data already
+		// drawn, so the random stream is unchanged.
+		if f.HasID && f.ID >= 8 {
+			switch (int(f.ID) + len(f.Name) + i) % 7 {
+			case 0:
+				f.IDText = fmt.Sprintf("0%d", f.ID)
+			case 1:
+				f.IDText = fmt.Sprintf("0x%x", f.ID)
+			}
+		}
 	}
 }
 
@@ -1031,7 +1041,8 @@ func (g *gen) qualify(fi int, ref NamedRef) string {
 	return g.p.Files[ref.File].Prefix() + "." + ref.Name
 }
 
-var niceDoubles = []string{"0.0", "1.0", "-1.0", "2.5", "-0.125", "3.14159", "100.25", ".5", "-.25", "+7.0", "123456.789", "0.1"}
+var niceDoubles = []string{"0.0", "1.0", "-1.0", "2.5", "-0.125", "3.14159", "100.25", ".5", "-.25", "+7.0", "123456.789", "0.1",
+	"0.123456789012", "2.718281828459045", "16777217.0", "1.0000000000000002", "-1234567.890123"}
 var expDoubles = []string{"1e10", "1.5e-3", "6.02E23", "-2.0e0", "1E+2"}
 var niceStrings = []string{"", "a", "hello", "Hello World", "x_y", "0", "true", "a/b", "#tag", "αβ", "tab\there", "%d%s", "/* c */", "// c", "{}", "[1,2]"}
 
